@@ -272,6 +272,20 @@ Theorem C01_whfast_recalculate_unsynchronized : whfast_recalc_ok = true /\ saba_
 Proof. exact (conj whfast_recalc saba_recalc). Qed.
 Print Assumptions C01_whfast_recalculate_unsynchronized.
 
+(* Corners of the theorems above (what the code does where a hypothesis excludes a case):
+   - C01_ode_substeps_end_at_nbody_time assumes every stepper answer has dt_proposed <> 0 (reb_integrator_bs_step always sets it to the
+     non-zero dt it was called with); the corner dt_last_done = 0 is proved separately here: no sub-step is requested, the ODE time stays;
+   - C01_ias15_controller_contract is stated for the forward direction (dt_done > 0, candidate > 0, min_dt >= 0); backward runs are the
+     mirror image in the code (fabs / copysign) and are covered by the bit-exact controller correspondence (dt0 < 0 runs), not by a theorem;
+     dt_done = 0 is outside it: the library divides by dt_done (IAS15 step with dt = 0 gives NaN: known finding order:corner/dt=0/ias15);
+   - C01_jerk_is_directional_derivative and C01_hybrid_switching assume r <> 0 (distinct positions): at coincident positions the code
+     divides by zero (inf/NaN accelerations), which is outside the collision-free regime C01 quantifies over;
+   - the order theorems are statements about words and do not depend on N; N = 0, 1, 2, zero masses, e = 0, inc = pi, e = 0.9, extreme
+     units, t0 = 1e6, dt = 0 / -0.0 / NaN are exercised by the searcher's corner group and the child-process probes. *)
+Theorem C01_ode_zero_length_step : forall oracle (rt prop0 : R), ode_run RNum oracle rt 0%R prop0 = ([], (rt - 0)%R, true).
+Proof. exact ode_run_zero_step. Qed.
+Print Assumptions C01_ode_zero_length_step.
+
 (* Non-vacuity: the decision procedure rejects wrong claims (leapfrog of order 4; SABA2 of grading (6,2)),
    and the lists quantified over are the concrete non-empty lists of types. *)
 Example C01_checker_rejects_wrong_orders :
